@@ -172,9 +172,24 @@ pub fn parse_report_names(rep: &str, tb: &Tables, names: &[String]) -> Parsed {
         if let Some(i) = l.find("Total") {
             let words: Vec<&str> = l[i..].split(|c: char| !c.is_alphanumeric()).filter(|w| !w.is_empty()).collect();
             // Total <word> <n>
-            if words.len() >= 3 {
-                if let Ok(n) = words[2].parse::<i64>() {
-                    p.totals.push((pos, words[1].to_string(), n));
+            if words.len() >= 3 && words[2].chars().all(|c| c.is_ascii_digit()) {
+                // the number may be written with digit-group separators ("1,234", "1 234", "1_234", "1'234", "1.234"): a separator
+                // counts when exactly three digits follow it
+                if let Some(at) = l[i..].find(words[2]) {
+                    let cs: Vec<char> = l[i + at..].chars().collect();
+                    let mut digits = String::new();
+                    let mut k = 0;
+                    while k < cs.len() && cs[k].is_ascii_digit() {
+                        digits.push(cs[k]);
+                        k += 1;
+                    }
+                    while k + 3 < cs.len() + 0 && matches!(cs[k], ',' | '_' | '\'' | ' ' | '.' | '\u{a0}' | '\u{202f}' | '\u{2009}') && cs[k + 1..k + 4].iter().all(|c| c.is_ascii_digit()) && cs.get(k + 4).map(|c| !c.is_ascii_digit()).unwrap_or(true) && !digits.is_empty() && digits.len() <= 3 + 3 * 6 {
+                        digits.extend(cs[k + 1..k + 4].iter());
+                        k += 4;
+                    }
+                    if let Ok(n) = digits.parse::<i64>() {
+                        p.totals.push((pos, words[1].to_string(), n));
+                    }
                 }
             }
         }
